@@ -2,3 +2,4 @@ pub mod calendar;
 pub mod fmt_spec;
 pub mod instant;
 pub mod pattern_gen;
+pub mod rfc3339;
